@@ -366,6 +366,14 @@ FastForward
 // hashgraph from a Block and associated Frame.
 func (c *core) fastForward(block *hg.Block, frame *hg.Frame) error {
 	c.logger.Debug("Fast Forward", frame.Round)
+
+	// The frame comes from the network: its peer list can contain null entries
+	for _, p := range frame.Peers {
+		if p == nil {
+			return fmt.Errorf("Frame contains an empty peer")
+		}
+	}
+
 	peerSet := peers.NewPeerSet(frame.Peers)
 
 	// Check Block Signatures
